@@ -389,5 +389,33 @@ def run(F, rep, tier):
                 kind = 'the shared default of the dict' if any(o[0] == 'payload' and 'Dict' in str(o[1:4]) for o in bad) else ('a copy of the element' if any(o[0] == 'call' and o[1].endswith('clone') for o in bad) else 'a value that is not the stored element')
                 rep.viol('R1.10', '%s|slot|%s' % (w, sorted(str(o[:2])[:50] for o in bad)[:1]), '%s descends into %s (%s): the write does not land in the addressed slot - it changes a value shared by every other absent key, or works on a second copy that keeps the collection shared' % (w, kind, sorted(str(o[:2]) for o in bad)[:2]), c.loc())
     rep.floor('R1.10', 'recursive descents', n110, 14)
+    # ---------------- R1.11
+    rep.rule('R1.11', 'whether a value is shared never decides a result: Rc::get_mut / strong_count / weak_count / try_unwrap / is_unique on a payload '
+             'handle occur only in the reviewed "drain if unique, else iterate a copy" helpers (iter.rs) and on stream handles (advance only a '
+             'unique stream); a builtin that branches on the sharing state of its operands makes `y := x` change what a later statement on x computes')
+    SHARING = re.compile(r'rc::Rc::<T(, A)?>::(get_mut|strong_count|weak_count|try_unwrap|into_inner|is_unique|unwrap_or_clone)$')
+    SHARE_OK = [
+        (r"^<core::MutObjIntoIter(Pairs)?<'_> as std::iter::Iterator>::next$", 'dyn core::Stream', 'a stream is advanced in place only when this is its sole handle (C11 R11.2)'),
+        (r"^iter::Rc(HashMap|String|Vec)Iter::<.*>::of$", '', 'drain the payload if unique, otherwise iterate over a copy: both paths yield the same elements'),
+        (r"^iter::unwrap_or_clone$", '', 'move out if unique, else clone: same value'),
+        (r"^optim::optimize$", 'core::LocExpr', 'AST optimisation pass, not a value'),
+    ]
+    from .census import Census as _Census
+    C1 = _Census(F)
+    n111 = 0
+    for p_ in sorted(F.bodies_raw):
+        if '::promoted' in p_:
+            continue
+        for c in F.body(p_).calls:
+            if not SHARING.search(c.target):
+                continue
+            n111 += 1
+            fk = C1.fn_key(p_)
+            g = str(c.callee.get('g'))
+            if any(re.search(rx, fk) and (ty in g) for rx, ty, _why in SHARE_OK):
+                rep.ok('R1.11', '%s: %s' % (fk, c.target.rsplit('::', 1)[-1]), 'reviewed')
+            else:
+                rep.viol('R1.11', '%s|sharing-test|%s' % (fk, c.target.rsplit('::', 1)[-1]), '%s asks whether a payload is shared (%s on %s): if the answer selects a different computation, the result of an operation on x depends on whether some `y := x` exists - an alias changes what a later mutation of x does' % (fk, c.target.rsplit('::', 1)[-1], g[:60]), c.loc())
+    rep.floor('R1.11', 'sharing-state queries in the crate', n111, 8)
     rep.undecided += ['clause (c): which index/key a type-correct mutation addresses and which value it writes']
     return META
